@@ -200,6 +200,39 @@ def sample_payload(d, variant=0):
             raw = 0
         n |= (raw & ((1 << f.L) - 1)) << f.offset_bits
         end = max(end, f.offset_bits + f.L)
+    # variable part: well-formed variable-length fields after the fixed prefix (text 'ABC', 16 bits of binary data)
+    fixed = True
+    pos = end
+    started = False
+    for f in d.fields:
+        if not started:
+            if f.L is None or f.offset_bits is None or f.variable:
+                started = True
+            else:
+                continue
+        fixed = False
+        if f.type == 'STRING_LZ':
+            data = bytes([3]) + b'ABC'
+        elif f.type == 'STRING_LAU':
+            data = bytes([5, 1]) + b'ABC'
+        elif f.type == 'BINARY' and f.length_field:
+            lf = d.fields[f.length_field - 1]
+            if lf.L is None or lf.offset_bits is None:
+                break
+            n &= ~(((1 << lf.L) - 1) << lf.offset_bits)
+            n |= 16 << lf.offset_bits
+            data = bytes([0xA5, 0x5A])
+        elif f.L is not None and not f.variable and f.type in ('NUMBER', 'LOOKUP', 'RESERVED', 'SPARE', 'TIME', 'DATE', 'DURATION'):
+            raw = ((1 << f.L) - 1) if f.type in ('RESERVED', 'SPARE') else (1 if f.type != 'NUMBER' else 1 + variant % 2)
+            n |= raw << pos
+            pos += f.L
+            continue
+        else:
+            break
+        pos = (pos + 7) // 8 * 8
+        n |= int.from_bytes(data, 'little') << pos
+        pos += 8 * len(data)
+    end = max(end, pos)
     nbytes = max((end + 7) // 8, d.length if isinstance(d.length, int) and d.length <= 223 and d.first_unsupported is None and all(f.L is not None and not f.variable for f in d.fields) else 0)
     nbytes = max(nbytes, 1)
     return n.to_bytes(nbytes, 'little')
